@@ -523,6 +523,10 @@ def variant_package(base, seed):
                             if isinstance(e.tag, str) and e.tag.rpartition("}")[2] in ("sequence-decls", "forms") and rng.random() < 0.5:
                                 kind.remove(e)
                 data = etree.tostring(root.getroottree(), xml_declaration=True, encoding="UTF-8")
+            if name in ("meta.xml", "content.xml", "styles.xml") and data.strip() and rng.random() < 0.15:
+                # another legal XML encoding, declared in the XML declaration (odfdo itself always writes UTF-8)
+                enc = rng.choice(["ISO-8859-1", "UTF-16"])
+                data = etree.tostring(etree.fromstring(data).getroottree(), xml_declaration=True, encoding=enc)
             zout.writestr(info, data, compress_type=zipfile.ZIP_STORED if name == "mimetype" else zipfile.ZIP_DEFLATED)
     return out.getvalue()
 
